@@ -483,7 +483,7 @@ def extract_matching_loci(loci, fasta, in_window=2114, out_window=1000,
 	coords = list(_resize_coords_generator(coords, in_window))
 	loci_n = _char_perc_from_coords(fasta, coords, 'N', num_regions, buffer=False, verbose=verbose)
 	loci_gc = _char_perc_from_coords(fasta, coords, 'GC', num_regions, buffer=False, verbose=verbose)
-	loci_gc = loci_gc[loci_n < max_n_perc]
+	loci_gc = loci_gc[loci_n <= max_n_perc]
 
 	loci_gc = ((loci_gc + gc_bin_width / 2.) // gc_bin_width).astype(int)
 	loci_bin_count = numpy.zeros(int((1. + gc_bin_width / 2.) // gc_bin_width)+1, dtype=int)
